@@ -74,6 +74,16 @@ def stepLine (s : DSt) (toks : List String) : DSt × String :=
     let st := flushKeys cfg s.inp
     let (p, r) := reply st.p
     ({ s with inp := { st with p := p } }, s!"{r} {encNats st.dec}")
+  | ["inew", e] =>
+    -- `Vt100Input(stdin)` with `stdin.encoding == e`
+    match (decKey e).bind Inp.ofEncoding with
+    | some ip => ({ s with ip := ip }, "ok")
+    | none => (s, "err:LookupError")
+  | ["rnew", e] =>
+    -- `PosixStdinReader(fd, encoding=e)`
+    match (decKey e).bind codecOf with
+    | some c => ({ s with rd := Reader.new c }, "ok")
+    | none => (s, "err:LookupError")
   | ["fdw", b] =>
     match decBytes b with
     | some b => ({ s with fd := s.fd.write b }, "ok")
